@@ -358,6 +358,9 @@ example : (match searchColl (run State.init [.cstore "c" "x" [1, 2] [], .cstore 
     | .viaIndex snap _ _ _ => snap.length | _ => 0) = 2 := by decide
 example : (match searchDefault (run State.init [.store "a" [1, 2], .build, .batchDelete ["zz"]]) [1, 2] 1 with
     | .viaIndex snap _ _ _ => snap.length | _ => 0) = 1 := by decide
+-- `invalidate_hnsw_cache` is one of the operations: afterwards the search is brute force again
+example : (match searchDefault (run State.init [.store "a" [1, 2], .build, .invalidate none]) [1, 2] 1 with
+    | .ranked _ rs _ _ => rs.map (·.key) | _ => []) = ["a"] := by decide
 -- brute force really answers (the `ranked` hypotheses are satisfiable), with ties and mixed dimensions
 example : (searchMetric (run State.init
       [.store "a" [1, 2], .store "b" [2, 4], .store "c" [1, 2, 3], .store "z" [0, 0]]) .cosine [3, 6] 2).answer.map (·.key)
